@@ -995,6 +995,7 @@ fn skip_to_end_of_statement(text: &str) -> IResult<&str, ()> {
 
     let mut bra_stack = vec![];
     loop {
+        verif_hook!(tick("skip_to_end_of_statement"));
         let (remain, tok) = match parse_token(rest) {
             Ok(res) => res,
             Err(_) => return Ok((rest, ())),
